@@ -27,6 +27,12 @@ pub struct Wh<P, const N: usize> where P: Default { pub a: [u8; N], pub p: Phant
 /// enum: generic with default, unit/tuple/struct variants, parameter only in some variants
 #[derive(Epserde, Debug, PartialEq, Eq, Clone)]
 pub enum Ge<A = Vec<u8>, B = u8> { N, T(B, A), S { b: B } }
+/// enum whose tuple and struct variants hold fields that merely *mention* a parameter
+/// (`Vec<B>`, `Option<B>`, `PhantomData<B>`): fully deserialized, type unchanged, while the
+/// variant `T(A)` holds a replaced parameter (seeded change C05b: the tuple-variant loop of
+/// the derive chose the ε-copy method for every field that mentions a parameter).
+#[derive(Epserde, Debug, PartialEq, Eq, Clone)]
+pub enum Gm<A, B> { N, V(Vec<B>, u8), O(Option<B>), P(PhantomData<B>), T(A), S { v: Vec<B>, k: u8 } }
 /// nested derived types
 #[derive(Epserde, Debug, PartialEq, Eq, Clone)]
 pub struct Outer<A> { pub inner: TupP<u16>, pub a: A }
@@ -88,4 +94,22 @@ pub fn c05_enum_defaults() {
 pub fn c05_nested() {
     let x = Outer::<String> { inner: TupP(any(), any()), a: sym::string_w(2, 0) };
     both_modes!(x: Outer<String>, |f| f.inner == x.inner && crate::cases::eqstr(&f.a, &x.a), |e: Outer<&str>| e.inner == x.inner && crate::cases::eqstr(e.a, &x.a));
+}
+#[cfg_attr(kani, kani::proof)] #[cfg_attr(kani, kani::unwind(6))] #[cfg_attr(kani, kani::stub(core::str::from_utf8, crate::env::from_utf8_stub))]
+pub fn c05_enum_mentions() {
+    let t: u8 = any();
+    assume(t < 6);
+    let x: Gm<Vec<u16>, u8> = match t {
+        0 => Gm::N,
+        1 => Gm::V(vec_upto::<u8, 2>(), any()),
+        2 => Gm::O(any()),
+        3 => Gm::P(PhantomData),
+        4 => Gm::T(vec_upto::<u16, 2>()),
+        _ => Gm::S { v: vec_upto::<u8, 2>(), k: any() },
+    };
+    both_modes!(x: Gm<Vec<u16>, u8>,
+                |f| match (&f, &x) { (Gm::N, Gm::N) => true, (Gm::V(v1, k1), Gm::V(v2, k2)) => eqs(v1, v2) && k1 == k2, (Gm::O(a), Gm::O(b)) => a == b, (Gm::P(_), Gm::P(_)) => true,
+                                     (Gm::T(a), Gm::T(b)) => eqs(a, b), (Gm::S { v: v1, k: k1 }, Gm::S { v: v2, k: k2 }) => eqs(v1, v2) && k1 == k2, _ => false },
+                |e: Gm<&[u16], u8>| match (&e, &x) { (Gm::N, Gm::N) => true, (Gm::V(v1, k1), Gm::V(v2, k2)) => eqs(v1, v2) && k1 == k2, (Gm::O(a), Gm::O(b)) => a == b, (Gm::P(_), Gm::P(_)) => true,
+                                     (Gm::T(a), Gm::T(b)) => eqs(a, b), (Gm::S { v: v1, k: k1 }, Gm::S { v: v2, k: k2 }) => eqs(v1, v2) && k1 == k2, _ => false });
 }
